@@ -94,6 +94,7 @@ struct Agg {
     /// signature -> (first seed, count, violation)
     violations: BTreeMap<String, (u64, u64, Violation)>,
     nontrivial_seeds: Vec<(usize, u64)>,
+    known_hits: BTreeMap<String, u64>,
 }
 
 impl Agg {
@@ -126,6 +127,9 @@ impl Agg {
         }
         if let Some(d) = &r.diverged {
             *self.diverged.entry(d.clone()).or_default() += 1;
+        }
+        for k in &r.known_hits {
+            *self.known_hits.entry(k.clone()).or_default() += 1;
         }
         self.unobservable += r.unobservable;
         self.parse_failures += r.parse_failures;
@@ -223,19 +227,7 @@ fn death_signature(prop: &str, class: &str, trace: &Trace) -> String {
     // the last event names the operation that killed or stalled the process
     let last = trace.events.last();
     let what = match last {
-        Some(Ev::Hostile { mutation, parser, .. }) => {
-            let m = match mutation {
-                crate::events::HostileMut::Field { val, .. } => {
-                    if *val == 0 { "count-field=0".to_string() } else { format!("count-field=2^{}", 63 - val.leading_zeros()) }
-                }
-                crate::events::HostileMut::None => "intact".into(),
-                crate::events::HostileMut::Truncate { .. } => "truncation".into(),
-                crate::events::HostileMut::SetByte { .. } => "byte-overwrite".into(),
-                crate::events::HostileMut::FlipBit { .. } => "bit-flip".into(),
-                crate::events::HostileMut::Extend { .. } => "extension".into(),
-            };
-            format!("{:?}/{m}", parser).to_lowercase()
-        }
+        Some(Ev::Hostile { parser, .. }) => format!("{:?}", parser).to_lowercase(),
         Some(e) => e.kind().to_lowercase(),
         None => "setup".into(),
     };
@@ -505,6 +497,12 @@ pub fn check(prop: &str, tier: &str, extra: &[String]) -> i32 {
     deaths.sort();
     for (seed, class, _tail) in &deaths {
         cands.push((*seed, None, class.clone()));
+    }
+    for (sig, n) in &agg.known_hits {
+        if let Some(k) = known.known.iter().find(|k| k.0 == prop && &k.1 == sig) {
+            println!("KNOWN-FINDING: property={prop} {} [{}] (seen in {n} runs)", k.2, k.1);
+            known_seen.push(sig.clone());
+        }
     }
     let mut done_sigs: BTreeSet<String> = BTreeSet::new();
     for (seed, sig0, death_class) in cands {
